@@ -212,16 +212,15 @@ PROPS["C16"] = dict(
 )
 
 PROPS["C20"] = dict(
-    contracts=["fields"], bounded=["c20"], level="other", trusted_base=COMMON_TRUSTED,
+    contracts=["fields"], extra=["extra.c20_escape.check"], bounded=["c20"], level="other", trusted_base=COMMON_TRUSTED,
     assumptions=["str.translate with a literal table = simultaneous replacement (encoded as a chain of replace_all; checked that no replacement contains a translated character)"],
-    not_decided=["'the escaped value contains no raw quote/CR/LF' as a consequence of the escaping equation (chains of replace_all are undecided by z3 and cvc5): bounded only",
-                 "the layout equation of encode_multipart_formdata / render_headers (loop over fields with a BytesIO): bounded only"],
-    explanation="Two parts. (1) PROVED for all names and values: format_multipart_header_param(name, value) == name + '=\"' + whatwg_escape(value) + '\"' where whatwg_escape percent-encodes exactly LF, CR and the double quote (taken from the statement). "
+    not_decided=["the layout equation of encode_multipart_formdata / render_headers (loop over fields with a BytesIO): bounded only"],
+    explanation="Two parts. (1) PROVED for all names and values: format_multipart_header_param(name, value) == name + '=\"' + whatwg_escape(value) + '\"' where whatwg_escape percent-encodes exactly LF, CR and the double quote (taken from the statement); and, by induction over the characters of the value (per-character, step and base lemmas discharged by z3 over the translate table read from the source, extra/c20_escape.py), the quoted value contains no raw quote, CR or LF - so a parameter value can never end the quoted string or the header line. "
                 "(2) BOUNDED: encode_multipart_formdata / RequestField parsed back by a strict independent multipart parser: same number and order of parts, exact Content-Disposition parameters (WHATWG-escaped), no extra headers, byte-identical data, "
                 "boundary named by the content type - for every hostile name/filename up to length 2/3 over an 11-symbol alphabet and seeded random field lists.",
-    level_text="Partial proof (the escaping equation) + bounded strict parse-back of the real encoder (complete for names/filenames up to the stated length; not a proof).",
+    level_text="Partial proof (the escaping equation and its no-raw-delimiter consequence) + bounded strict parse-back of the real encoder (complete for names/filenames up to the stated length; not a proof).",
     level_note="Bounded part labelled bounded.",
-    technique="contract-based deductive verification (string VC, z3) for the escaping rule + bounded strict parse-back of the real multipart encoder",
+    technique="contract-based deductive verification (string VC, z3) for the escaping rule, inductive per-character lemma (z3) over the translate table read from the source for 'no raw quote/CR/LF in a parameter value' + bounded strict parse-back of the real multipart encoder",
 )
 
 PROPS["C11"] = dict(
